@@ -126,6 +126,11 @@ package cookie
 
 //@ func (*SessionStore).setSessionCookie
 //@ prop C10 C18
-//@ at call http.SetCookie assert[sets-every-part] arg(http.SetCookie, 0) == rw && ret1(makeSessionCookie) == nil
-//@     && arg(http.SetCookie, 1) == ret0(makeSessionCookie)[rangeindex + 1]
+//@ at call http.SetCookie#0 assert[sets-every-part] arg(http.SetCookie#0, 0) == rw && ret1(makeSessionCookie) == nil
+//@     && arg(http.SetCookie#0, 1) == ret0(makeSessionCookie)[rangeindex + 1]
+//@ at call regexp.MustCompile assert[stale-cookie-pattern-from-the-quoted-cookie-name] arg(regexp.MustCompile, 0) == "^" + quoteMeta(s.Cookie.Name) + "(_\\d+)?$"
+//@ at call makeCookie assert[deletes-only-presented-session-cookies-not-just-set] arg(makeCookie, 2) == c.Name && arg(makeCookie, 3) == ""
+//@     && arg(makeCookie, 4) < 0 && ret(MatchString) && arg(MatchString, 1) == c.Name && arg(MatchString, 0) == ret(regexp.MustCompile)
+//@     && !inmap(set, c.Name)
+//@ at call http.SetCookie#1 assert[issues-that-deletion] arg(http.SetCookie#1, 1) == ret(makeCookie) && arg(http.SetCookie#1, 0) == rw
 //@ ensures[error-sets-nothing] ret1(makeSessionCookie) != nil ==> ret0 != nil && !called(http.SetCookie)
